@@ -175,6 +175,8 @@ def _boundary():
                 out.append(("b:hold:%s:%d:%d:%d" % (new, len(out), w, k),
                             ["e new " + new] + pre + ["e hold %d %d" % (w, k), "e reserve %d" % max(w, 1), "e hold %d %d" % (w, k), "e emit id 1 1",
                                                       "e clear 1", "e hold %d 2" % w, "e set 1", "e hold 1 127", "e fini", "e hold %d 1" % w]))
+    # known finding: an event reaches a reservation that is still outstanding
+    out.append(("b:holdemit", ["e new nofb", "e set 5", "e holdemit 1"]))
     # the hash function itself: C string mode and counted mode
     for t in ["-", "61", "6162", "ff", "80", "7f80ff", "6100", "610062", "00", "0061", "e4f6fc00e4", "61" * 200, "ff" * 64 + "00" + "41"]:
         out.append(("b:djb2:" + t[:12], ["e new nofb", "e djb2 " + t, "e hashn", "e djb2 " + t]))
